@@ -37,7 +37,7 @@ type Responder struct {
 	Reply  []int `json:"reply"`
 	Fail   bool  `json:"fail"`
 	Accept bool  `json:"accept"`
-	Val    int   `json:"val"` // 0 none, 1 passes Validate, 2 does not
+	Val    int   `json:"val"` // value class: 0 nil, 1 well-formed, 2 malformed, 3 empty but non-nil, 4 well-formed bytes shared by several nodes
 	Bad    bool  `json:"bad"` // FindNode's Validate rejects this node's info
 	Adv    bool  `json:"adv"` // not a real DHTNode handler
 }
@@ -47,6 +47,8 @@ type Case struct {
 	Fam string `json:"fam"`
 	Op  string `json:"op"`
 	Min int    `json:"min"`
+	// the caller's Validate (get): 0 none given (accept all), 1 reject malformed, 2 reject malformed and empty, 3 reject everything
+	VMode int `json:"vmode"`
 	// adv
 	N     int         `json:"n"`
 	Init  []int       `json:"init"`
@@ -75,6 +77,7 @@ type Result struct {
 	Accepted  int   `json:"accepted"`
 	From      int   `json:"from"`
 	HasVal    bool  `json:"hasval"`
+	ValOK     bool  `json:"valok"` // ground truth: the case's Validate accepts exactly the returned bytes
 	ValSrc    []int `json:"valsrc"`
 	Added     int   `json:"added"`
 }
@@ -85,6 +88,7 @@ type Event struct {
 	Fam      string      `json:"fam"`
 	Op       string      `json:"op"`
 	Min      int         `json:"min"`
+	VMode    int         `json:"vmode"`
 	Init     []int       `json:"init"`
 	Topo     []Responder `json:"topo"`
 	Contacts []int       `json:"contacts"`
@@ -180,7 +184,7 @@ func runOp(op string, min int, w *world, o *ops) (rr rawResult) {
 				if err == nil {
 					w.mu.Lock()
 					if _, seen := w.served[dst.ID]; !seen {
-						w.served[dst.ID] = append([]byte(nil), r.Value...)
+						w.served[dst.ID] = append([]byte{}, r.Value...) // an empty value stays non-nil
 						if r.Value == nil {
 							w.served[dst.ID] = nil
 						}
@@ -295,11 +299,50 @@ func valueOf(m int, class int) []byte {
 		return []byte(fmt.Sprintf("ok:%d", m))
 	case 2:
 		return []byte(fmt.Sprintf("bad:%d", m))
+	case 3:
+		return []byte{} // present but empty, what `{"value":""}` decodes to
+	case 4:
+		return []byte("ok:shared")
 	}
 	return nil
 }
 
-func validValue(v []byte) bool { return bytes.HasPrefix(v, []byte("ok:")) }
+func malformed(v []byte) bool { return bytes.HasPrefix(v, []byte("bad:")) }
+
+// validator is the Validate function the case passes to DHTGet (nil: none, DHTGet then accepts every value).
+func validator(vmode int) func([]byte) bool {
+	switch vmode {
+	case 1:
+		return func(v []byte) bool { return !malformed(v) }
+	case 2:
+		return func(v []byte) bool { return !malformed(v) && len(v) > 0 }
+	case 3:
+		return func(v []byte) bool { return false }
+	}
+	return nil
+}
+
+// groundTruth: would the case's Validate accept exactly these bytes (nil is "no value")?
+func groundTruth(vmode int, v []byte) bool {
+	if v == nil {
+		return false
+	}
+	f := validator(vmode)
+	return f == nil || f(v)
+}
+
+// classOf is the value class of bytes served by a real handler
+func classOf(v []byte) int {
+	switch {
+	case v == nil:
+		return 0
+	case len(v) == 0:
+		return 3
+	case malformed(v):
+		return 2
+	}
+	return 1
+}
 
 func runAdv(c *Case, patience time.Duration) Event {
 	if c.N > 200 {
@@ -358,7 +401,7 @@ func runAdv(c *Case, patience time.Duration) Event {
 			r, ok := topo[e.model(ni.ID, c.N)]
 			return !ok || !r.Bad
 		},
-		validV: validValue,
+		validV: validator(c.VMode),
 		addPeer: func(id p2p.PeerID, _ []byte) bool {
 			if seen[id] {
 				return false
@@ -368,7 +411,7 @@ func runAdv(c *Case, patience time.Duration) Event {
 		},
 	}
 	rr, panicked, what, hung := guarded(c.Op, c.Min, w, o, patience)
-	ev := Event{Ev: "case", ID: c.ID, Fam: c.Fam, Op: c.Op, Min: c.Min, Init: append([]int{}, c.Init...),
+	ev := Event{Ev: "case", ID: c.ID, Fam: c.Fam, Op: c.Op, Min: c.Min, VMode: c.VMode, Init: append([]int{}, c.Init...),
 		Topo: make([]Responder, 0, len(c.Topo)), Contacts: []int{}, Panic: panicked, PanicV: what, Universe: c.N}
 	for _, r := range c.Topo {
 		r.Adv = true
@@ -384,10 +427,11 @@ func runAdv(c *Case, patience time.Duration) Event {
 	ev.NonTerm = w.nonterm || hung
 	w.mu.Unlock()
 	ev.Res = Result{Closest: e.model(rr.closest, c.N), From: e.model(rr.from, c.N), Contacted: rr.contacted,
-		Responded: rr.responded, Accepted: rr.accepted, Added: rr.added, HasVal: rr.value != nil, ValSrc: []int{}}
+		Responded: rr.responded, Accepted: rr.accepted, Added: rr.added, HasVal: rr.value != nil,
+		ValOK: groundTruth(c.VMode, rr.value), ValSrc: []int{}}
 	if rr.value != nil {
 		for m, r := range topo {
-			if !r.Fail && bytes.Equal(valueOf(m, r.Val), rr.value) {
+			if !r.Fail && r.Val != 0 && bytes.Equal(valueOf(m, r.Val), rr.value) {
 				ev.Res.ValSrc = append(ev.Res.ValSrc, m)
 			}
 		}
@@ -476,7 +520,11 @@ func runHonest(c *Case, patience time.Duration) Event {
 			byID[ids[i]].node.Put(key[:], []byte("ok:stored"), time.Hour)
 		}
 		for i := 0; i < c.Poison; i++ {
-			members[rng.Intn(size)].node.Put(key[:], []byte("bad:stored"), time.Hour)
+			poison := []byte("bad:stored")
+			if rng.Intn(2) == 0 {
+				poison = []byte{} // a present but empty entry
+			}
+			members[rng.Intn(size)].node.Put(key[:], poison, time.Hour)
 		}
 	}
 	if c.Op == "put" {
@@ -534,7 +582,7 @@ func runHonest(c *Case, patience time.Duration) Event {
 			}
 			list = append(list, kademlia.NodeInfo{ID: id, Info: []byte("j")})
 		}
-		return list, r.Intn(2) == 0, r.Intn(3)
+		return list, r.Intn(2) == 0, r.Intn(5)
 	}
 	reach := func(dst kademlia.NodeInfo) (*member, error) {
 		m, ok := byID[dst.ID]
@@ -577,13 +625,7 @@ func runHonest(c *Case, patience time.Duration) Event {
 				return kademlia.GetRes{Value: valueOf(int(m.id[0]), val), Closer: list}, nil
 			}
 			res, err := m.node.HandleGet(src.id, req)
-			val := 0
-			if res.Value != nil {
-				val = 2
-				if validValue(res.Value) {
-					val = 1
-				}
-			}
+			val := classOf(res.Value)
 			record(dst.ID, &observed{reply: idsOf(res.Closer), fail: err != nil, val: val})
 			return res, err
 		},
@@ -602,7 +644,7 @@ func runHonest(c *Case, patience time.Duration) Event {
 			return res, err
 		},
 		validN: nil,
-		validV: validValue,
+		validV: validator(c.VMode),
 		addPeer: func(id p2p.PeerID, info []byte) bool {
 			src.node.AddPeer(id, info)
 			if seen[id] {
@@ -661,7 +703,7 @@ func runHonest(c *Case, patience time.Duration) Event {
 		}
 		return out
 	}
-	ev := Event{Ev: "case", ID: c.ID, Fam: c.Fam, Op: c.Op, Min: c.Min, Init: models(initIDs), Topo: []Responder{},
+	ev := Event{Ev: "case", ID: c.ID, Fam: c.Fam, Op: c.Op, Min: c.Min, VMode: c.VMode, Init: models(initIDs), Topo: []Responder{},
 		Contacts: models(contacts), Panic: panicked, PanicV: what, NonTerm: nonterm || hung, Universe: len(all) + 1}
 	done := map[p2p.PeerID]bool{}
 	for _, id := range contacts {
@@ -674,7 +716,7 @@ func runHonest(c *Case, patience time.Duration) Event {
 	}
 	sort.Slice(ev.Topo, func(i, j int) bool { return ev.Topo[i].ID < ev.Topo[j].ID })
 	ev.Res = Result{Closest: model(rr.closest), From: model(rr.from), Contacted: rr.contacted, Responded: rr.responded,
-		Accepted: rr.accepted, Added: rr.added, HasVal: rr.value != nil, ValSrc: []int{}}
+		Accepted: rr.accepted, Added: rr.added, HasVal: rr.value != nil, ValOK: groundTruth(c.VMode, rr.value), ValSrc: []int{}}
 	if rr.value != nil {
 		for id, v := range served {
 			if v != nil && bytes.Equal(v, rr.value) {
